@@ -47,6 +47,7 @@ func atomicAdd(fr *Frame, cc *ssa.CallCommon, st *State, pos token.Pos) []Term {
 	lv := fr.atomicLV(cc, pos)
 	// another goroutine may have changed the cell since we last looked: the value read is the current one
 	old := vc.loadL(lv, st)
+	vc.assumeIf(fr.curReach, vc.wf(lv.T, old.S)) // memory holds well-typed values
 	d := fr.val(cc.Args[1])
 	w, signed, _ := intInfo(lv.T)
 	var nv string
@@ -83,6 +84,7 @@ func atomicCAS(fr *Frame, cc *ssa.CallCommon, st *State, pos token.Pos) []Term {
 	vc := fr.vc
 	lv := fr.atomicLV(cc, pos)
 	cur := vc.loadL(lv, st)
+	vc.assumeIf(fr.curReach, vc.wf(lv.T, cur.S))
 	old := fr.val(cc.Args[1])
 	nw := fr.val(cc.Args[2])
 	ok := vc.fresh("casok")
@@ -113,6 +115,42 @@ func (fr *Frame) checkGuard(lv *LVal, write bool, pos token.Pos) {
 	case "atomic_only":
 		vc.oblige("atomic", fr.autoTags(), fr.curReach, "false", fmt.Sprintf("plain %s of atomic-only location %s", rw(write), key), pos, nil)
 	}
+}
+
+// checkElemsAtomic: a plain load/store of an element of a package-level slice or array declared
+// `global X elems_atomic` (provenance: IndexAddr / FieldAddr chain ending in a load of that global).
+func (fr *Frame) checkElemsAtomic(addr ssa.Value, write bool, pos token.Pos) {
+	vc := fr.vc
+	g := elemsOfGlobal(addr, false)
+	if g == nil || vc.db == nil {
+		return
+	}
+	key := shortPkg(g.Pkg.Pkg.Path()) + "." + g.Name()
+	if gs, ok := vc.db.Globals[key]; ok && gs.Kind == "elems_atomic" {
+		vc.oblige("atomic", fr.autoTags(), fr.curReach, "false", fmt.Sprintf("plain %s of an element of atomic-only table %s", rw(write), key), pos, nil)
+	}
+}
+
+// elemsOfGlobal follows IndexAddr/FieldAddr back to a package-level variable (through the load of a
+// slice header); seenIndex: at least one indexing step was taken.
+func elemsOfGlobal(v ssa.Value, seenIndex bool) *ssa.Global {
+	switch v := v.(type) {
+	case *ssa.IndexAddr:
+		return elemsOfGlobal(v.X, true)
+	case *ssa.FieldAddr:
+		return elemsOfGlobal(v.X, seenIndex)
+	case *ssa.UnOp:
+		if v.Op == token.MUL && seenIndex {
+			if g, ok := v.X.(*ssa.Global); ok {
+				return g
+			}
+		}
+	case *ssa.Global:
+		if seenIndex {
+			return v
+		}
+	}
+	return nil
 }
 
 func rw(w bool) string {
@@ -1251,4 +1289,100 @@ func (vc *VC) msumFn(mt *types.Map) string {
 		vc.decls = append(vc.decls, fmt.Sprintf("(declare-fun %s ((Array %s %s) (Array %s Bool)) Int)", name, vc.sortOf(mt.Key()), vc.optSort(mt.Elem()), vc.sortOf(mt.Key())))
 	}
 	return name
+}
+
+// sort.Sort(x) for x a named slice type whose Less method carries a `pure` contract (verified like any
+// other function): afterwards the slice's elements are a rearrangement of the old ones (every new
+// element is an old one, stated with an index function), nothing outside the slice
+// changed, and no later element is Less than an earlier one. Contract of the library routine, trusted;
+// Len and Swap are taken to be the canonical ones for a slice type.
+func init() {
+	nativeCalls["sort.Sort"] = &nativeCall{exec: func(fr *Frame, cc *ssa.CallCommon, st *State, pos token.Pos) []Term {
+		vc := fr.vc
+		vc.callees["sort.Sort (result sorted by Less, a rearrangement of the input; trusted)"] = true
+		mi, ok := cc.Args[0].(*ssa.MakeInterface)
+		if !ok {
+			vc.unsupportedf("sort.Sort of a value that is not a slice-type conversion at %s", vc.posOf(pos))
+			return nil
+		}
+		named, ok := mi.X.Type().(*types.Named)
+		var sl *types.Slice
+		if ok {
+			sl, ok = named.Underlying().(*types.Slice)
+		}
+		if !ok {
+			vc.unsupportedf("sort.Sort of %s (not a named slice type)", mi.X.Type())
+			return nil
+		}
+		key := fmt.Sprintf("%s.(%s).Less", shortPkg(named.Obj().Pkg().Path()), named.Obj().Name())
+		spec := vc.lookupSpec(key)
+		if spec == nil || spec.Pure == nil {
+			vc.unsupportedf("sort.Sort: %s has no `pure` contract", key)
+			return nil
+		}
+		vc.callees[spec.Key] = true
+		var lessFn *ssa.Function
+		if ms := vc.w.Prog.MethodSets.MethodSet(named); ms != nil {
+			for i := 0; i < ms.Len(); i++ {
+				if ms.At(i).Obj().Name() == "Less" {
+					lessFn = vc.w.Prog.MethodValue(ms.At(i))
+				}
+			}
+		}
+		if lessFn == nil || len(lessFn.Params) != 3 {
+			vc.unsupportedf("sort.Sort: method Less of %s not found", named)
+			return nil
+		}
+		s := fr.val(mi.X)
+		comp := vc.arrComp(sl.Elem())
+		oldAll := vc.get(st, comp)
+		es := vc.sortOf(sl.Elem())
+		oldArr := vc.fresh("sortold")
+		vc.define(oldArr, fmt.Sprintf("(Array %s %s)", vc.isort(), es), fmt.Sprintf("(select %s (sl_ref %s))", oldAll, s.S))
+		newArr := vc.fresh("sorted")
+		vc.declare(newArr, fmt.Sprintf("(Array %s %s)", vc.isort(), es))
+		vc.set(st, comp, fmt.Sprintf("(store %s (sl_ref %s) %s)", oldAll, s.S, newArr))
+		if vc.bv {
+			vc.unsupportedf("sort.Sort in bit-vector mode")
+			return nil
+		}
+		// positions are slice-relative (the element at position k is arr[off+k]) so that quantified facts
+		// about the slice, whose triggers have the form (select arr (+ off k)), chain through perm/iperm
+		off := fmt.Sprintf("(sl_off %s)", s.S)
+		n := fmt.Sprintf("(sl_len %s)", s.S)
+		in := func(k string) string { return fmt.Sprintf("(and (<= 0 %s) (< %s %s))", k, k, n) }
+		at := func(a, k string) string { return fmt.Sprintf("(select %s (+ %s %s))", a, off, k) }
+		perm, iperm := vc.fresh("perm"), vc.fresh("iperm")
+		vc.decls = append(vc.decls, fmt.Sprintf("(declare-fun %s (Int) Int)", perm))
+		r := fr.curReach
+		vc.assumeIf(r, fmt.Sprintf("(forall ((q_k Int)) (! (=> (or (< q_k %s) (>= q_k (+ %s %s))) (= (select %s q_k) (select %s q_k))) :pattern ((select %s q_k))))", off, off, n, newArr, oldArr, newArr))
+		vc.assumeIf(r, fmt.Sprintf("(forall ((q_k Int)) (! (=> %s (and %s (= %s %s))) :pattern (%s)))", in("q_k"), in("("+perm+" q_k)"), at(newArr, "q_k"), at(oldArr, "("+perm+" q_k)"), at(newArr, "q_k")))
+		_ = iperm // the converse (every old element survives) would form a matching loop with perm; not needed so far
+		// sorted: for positions i < j of the slice, not Less(j, i)
+		env := map[string]Term{
+			lessFn.Params[0].Name(): s,
+			lessFn.Params[1].Name(): {"q_j", "Int", types.Typ[types.Int]},
+			lessFn.Params[2].Name(): {"q_i", "Int", types.Typ[types.Int]},
+		}
+		ctx := &SpecCtx{vc: vc, env: env, st: st, old: st, pkg: spec.Pkg}
+		g, err := ctx.evalBool(spec.Pure.E)
+		if err != nil {
+			vc.unsupportedf("sort.Sort: contract of %s: %v", key, err)
+			return nil
+		}
+		body := fmt.Sprintf("(=> (and (<= 0 q_i) (< q_i q_j) (< q_j (sl_len %s))) (not %s))", s.S, g)
+		pi, pj := inferPatterns(body, "q_i"), inferPatterns(body, "q_j")
+		if len(pi) > 0 && len(pj) > 0 {
+			body = fmt.Sprintf("(! %s :pattern (%s %s))", body, pi[0], pj[0])
+		}
+		vc.assumeIf(r, fmt.Sprintf("(forall ((q_i Int) (q_j Int)) %s)", body))
+		return nil
+	}, modifies: func(fr *Frame, cc *ssa.CallCommon) []string {
+		if mi, ok := cc.Args[0].(*ssa.MakeInterface); ok {
+			if sl, ok := mi.X.Type().Underlying().(*types.Slice); ok {
+				return []string{fr.vc.arrComp(sl.Elem())}
+			}
+		}
+		return nil
+	}, doc: "sort.Sort"}
 }
